@@ -61,19 +61,9 @@ func (f *Logbitp) Call(s *slip.Scope, args slip.List, depth int) slip.Object {
 			return slip.True
 		}
 	case *slip.Bignum:
-		ba := (*big.Int)(ti).Bytes()
-		reverseBytes(ba)
-		bo := int(index) / 8
-		if bo < len(ba) {
-			if 0 < (*big.Int)(ti).Sign() {
-				if (ba[bo]>>(index%8))&0x01 == 1 {
-					return slip.True
-				}
-			} else {
-				if (ba[bo]>>(index%8))&0x01 != 1 {
-					return slip.True
-				}
-			}
+		// Bit() follows two's complement rules for a negative value.
+		if (*big.Int)(ti).Bit(int(index)) == 1 {
+			return slip.True
 		}
 	default:
 		slip.TypePanic(s, depth, "integer", ti, "integer")
